@@ -252,7 +252,7 @@ def oldSetNil (s : OldSt) (k : Key) : OldSt :=
 /-- old `Has(k)` for such a key -/
 def oldHasNil (_ : OldSt) (_ : Key) : Bool := false
 
-/-! ## line protocol: a session of several instances -/
+/-! ## line protocol: codecs, answers, requests (the sessions are in `Hive/Model/AdsRealm.lean`) -/
 open Hive.Proto
 
 /-- The serializers of the harness: a key / value whose first byte is `0xEE` does not encode. -/
@@ -281,18 +281,6 @@ def sameKV (a b : KV) : Bool :=
 def classOf (m : KV) : List KV → Nat
   | [] => 0
   | p :: ps => if sameKV p m then 0 else classOf m ps + 1
-
-structure Sess where
-  insts : List (Nat × St R0)
-  /-- the contents at every root request of the session so far, oldest first -/
-  points : List KV
-
-def Sess.init : Sess := { insts := [], points := [] }
-
-def Sess.get (ss : Sess) (i : Nat) : Option (St R0) := (ss.insts.find? (·.1 == i)).map (·.2)
-
-def Sess.put (ss : Sess) (i : Nat) (s : St R0) : Sess :=
-  { ss with insts := (i, s) :: ss.insts.filter (·.1 != i) }
 
 def showKV (ps : KV) : String :=
   "[" ++ " ".intercalate (ps.map (fun p => hex p.1 ++ "=" ++ hex p.2)) ++ "]"
@@ -339,32 +327,5 @@ def parseOp : List String → Option Op
   | ["restored"] => some .restored
   | ["reopen"] => some .reopen
   | _ => none
-
-/-- Request lines are `<verb> <instance> <args…>`; `open <i> <flavour>` creates instance `i` over a
-fresh store (the flavour only selects the Go type: `add k` is `set k ""`). -/
-def stepLine (ss : Sess) (toks : List String) : Sess × String :=
-  match toks with
-  | ["open", i, _] =>
-    match i.toNat? with
-    | some i => (ss.put i init, "ok")
-    | none => (ss, "bad-op")
-  | verb :: i :: args =>
-    match i.toNat? with
-    | none => (ss, "bad-op")
-    | some i =>
-      match ss.get i with
-      | none => (ss, "noinst")
-      | some s =>
-        match parseOp (verb :: args) with
-        | none => (ss, "bad-op")
-        | some op =>
-          let (s', o) := step cfg0 s op
-          match o with
-          | .root _ =>
-            -- roots are compared as equality classes: the first point of the session with these contents
-            let pts := ss.points ++ [s.trie.mem]
-            ({ ss.put i s' with points := pts }, s!"class {classOf s.trie.mem pts}")
-          | _ => (ss.put i s', showOut o)
-  | _ => (ss, "bad-op")
 
 end Hive.Ads
